@@ -3,6 +3,11 @@
  * Compiled with -fsanitize=thread (instrumentation only). */
 #include "myth/myth.h"
 #include "myth_config.h"
+#include "myth_tls.h"
+/* the public-facing bodies (myth_key_create_body / myth_key_delete_body) work on the global key table: let every participant's copy of
+   the shared region stand for it (unitmc's bind callback sets the pointer before a participant runs) */
+static myth_tls_key_allocator_t * u2_ka;
+#define g_myth_tls_key_allocator u2_ka
 #include "myth_tls_func.h"
 #include "unitmc.h"
 #include "seqmc.h"
@@ -12,13 +17,18 @@
 
 static const char * PROG[U2_MAXP]; static int NPART;
 static void init(void * region) { myth_tls_key_allocator_init((myth_tls_key_allocator_t *)region); }
+#define DTOR(p, i) ((myth_tls_destructor_fun_t)(uintptr_t)(0x10000 + (p) * 256 + (i)))   /* never called: compared only */
+static void bind_ka(void * region, int me) { (void)me; u2_ka = region; }
 static void body(void * region, int me) {
-  myth_tls_key_allocator_t * ka = region;
-  int mine[8], n = 0;
+  (void)region;
+  int mine[8], n = 0, created = 0;
   for (const char * s = PROG[me]; *s; s++) {
-    if (*s == 'c') { int k = myth_tls_key_allocator_alloc(ka, 0); u2_note(me, 1000 + k); if (k >= 0) mine[n++] = k; }
+    if (*s == 'c') {
+      myth_key_t k = -1; int r = myth_key_create_body(&k, DTOR(me, created)); created++;
+      if (r != 0) k = -1;
+      u2_note(me, 1000 + k); if (k >= 0) mine[n++] = k; }
     else if (n > 0) { int k = mine[0]; memmove(mine, mine + 1, sizeof(int) * (n - 1)); n--;
-      if (myth_tls_key_allocator_dealloc(ka, k) == (myth_tls_destructor_fun_t)-1) u2_fail("delete of a key this participant owns was rejected (key %d)", k);
+      if (myth_key_delete_body(k) != 0) u2_fail("delete of a key this participant owns was rejected (key %d)", k);
       u2_note(me, 3000 + k); }
   }
 }
@@ -32,6 +42,14 @@ static const char * oracle(void * region) {
     else if (v >= 3000) live[v - 3000]--;
   }
   for (int k = 0; k < 1024; k++) if (live[k] > 1) { snprintf(omsg, sizeof omsg, "key %d is live %d times at quiescence: handed out twice while live", k, live[k]); return omsg; }
+  /* a live key keeps the destructor its creator registered */
+  for (int p = 0; p < NPART; p++) { int created = 0;
+    for (int i = 0; i < u2_nnoted(p); i++) { long v = u2_noted(p, i); if (v < 1000 || v >= 3000) continue;
+      int k = (int)v - 1000, ord = created++, deleted = 0;
+      if (k < 0) continue;
+      for (int j = i + 1; j < u2_nnoted(p); j++) if (u2_noted(p, j) == 3000 + k) deleted = 1;
+      if (!deleted && live[k] == 1 && ka->keys[k].destructor != DTOR(p, ord)) {
+	snprintf(omsg, sizeof omsg, "live key %d was created with destructor %p but the table holds %p at quiescence (a concurrent delete of the key's previous incarnation overwrote it)", k, (void *)DTOR(p, ord), (void *)ka->keys[k].destructor); return omsg; } } }
   /* the free list must not contain a live cell and must be well formed */
   int steps = 0;
   for (myth_tls_key_entry_t * e = ka->free; e; e = e->next) {
@@ -49,10 +67,11 @@ typedef struct { long states, transitions, terminals, configs; int nfound; char 
 
 int main(int argc, char ** argv) {
   if (!getenv("U2_NOASLR")) { setenv("U2_NOASLR", "1", 1); if (personality(ADDR_NO_RANDOMIZE) != -1) execv("/proc/self/exe", argv); }
-  const char * stats = "build/c10e2/stats.json"; int tier = 0, jobs = 16, only = -1;
+  const char * stats = "build/c10e2/stats.json", * propid = "C10", * compid = "c10e2"; int tier = 0, jobs = 16, only = -1;
   for (int i = 1; i < argc; i++) {
     if (!strcmp(argv[i], "--stats")) stats = argv[++i]; else if (!strcmp(argv[i], "--tier")) tier = !strcmp(argv[++i], "thorough");
     else if (!strcmp(argv[i], "--jobs")) jobs = atoi(argv[++i]); else if (!strcmp(argv[i], "--conf")) only = atoi(argv[++i]);
+    else if (!strcmp(argv[i], "--prop")) propid = argv[++i]; else if (!strcmp(argv[i], "--comp")) compid = argv[++i];
   }
   static const char * A[] = { "c", "cc", "cd", 0 };
   static const char * B2[] = { "c", "d", "cc", "cd", "ccd", "cdc", "ccc", "cdd", "ccdc", 0 };
@@ -64,7 +83,7 @@ int main(int argc, char ** argv) {
     if (strlen(B2[b]) > 3 && !tier && a > 0) continue;
     conf_t cf = { A[a], B2[b], Cs[c], mm }; confs[nconf++] = cf;
   }
-  sq_begin("C10", "c10e2", "E2 unitmc (explicit-state; every access of the real key-table code a transition; SC and x86-TSO)", "replays", argv[0]);
+  sq_begin(propid, compid, "E2 unitmc (explicit-state; every access of the real key-table code a transition; SC and x86-TSO)", "replays", argv[0]);
   shared_t * SH = mmap(NULL, sizeof(shared_t) * jobs, PROT_READ | PROT_WRITE, MAP_SHARED | MAP_ANONYMOUS, -1, 0);
   for (int j = 0; j < jobs; j++) if (fork() == 0) {
     shared_t * me = &SH[j];
@@ -72,7 +91,8 @@ int main(int argc, char ** argv) {
       if (only >= 0 && c != only) continue;
       conf_t * cf = &confs[c];
       PROG[0] = cf->a; PROG[1] = cf->b; PROG[2] = cf->c; NPART = cf->c ? 3 : 2;
-      u2_config_t uc = { "keyalloc", sizeof(myth_tls_key_allocator_t), init, NPART, { body, body, body }, oracle, 0 };
+      u2_config_t uc = { "keyalloc", sizeof(myth_tls_key_allocator_t), init, NPART, { body, body, body }, oracle, bind_ka };
+      g_myth_init_state = myth_init_state_initialized;   /* the bodies call myth_ensure_init(): no runtime is needed for the key table */
       static u2_result_t res; u2_explore(&uc, cf->mm, 6000000, &res);
       me->states += res.states; me->transitions += res.transitions; me->terminals += res.terminals; me->configs++;
       if (res.violation == 4) me->capped++;
@@ -89,7 +109,7 @@ int main(int argc, char ** argv) {
   long capped = 0;
   for (int j = 0; j < jobs; j++) {
     SQ.states += SH[j].states; SQ.transitions += SH[j].transitions; SQ.evaluations += SH[j].configs; SQ.distinct += SH[j].terminals; capped += SH[j].capped;
-    for (int k = 0; k < SH[j].nfound; k++) { char arg[60]; snprintf(arg, sizeof arg, "--tier %s --conf %d", tier ? "thorough" : "quick", atoi(SH[j].fkey[k] + 5)); sq_found(SH[j].fkey[k], arg, "%s", SH[j].found[k]); }
+    for (int k = 0; k < SH[j].nfound; k++) { char arg[120]; snprintf(arg, sizeof arg, "--prop %s --comp %s --tier %s --conf %d", propid, compid, tier ? "thorough" : "quick", atoi(SH[j].fkey[k] + 5)); sq_found(SH[j].fkey[k], arg, "%s", SH[j].found[k]); }
   }
   if (capped) SQ.exhaustive = 0;
   if (SQ.states == 0) { SQ.engine_error = 1; fprintf(stderr, "ENGINE-ERROR no state explored (configuration too large for unitmc.c REGION_MAX?)\n"); }   /* never report a vacuous run as a pass */
